@@ -89,6 +89,8 @@ macro_rules! api_table {
                     e!("NumCast::from(i64)", I, false, |x: &Args| o(<TwoFloat as num_traits::NumCast>::from(x.i as i64).unwrap())),
                     e!("NumCast::from(u128)", I, false, |x: &Args| o(<TwoFloat as num_traits::NumCast>::from(x.i as u128).unwrap())),
                     e!("FromPrimitive::from_i128", I, false, |x: &Args| o(<TwoFloat as num_traits::FromPrimitive>::from_i128(x.i).unwrap())),
+                    e!("try_from((f,g))", FF, false, |x: &Args| o(TwoFloat::try_from((x.f, x.g)).unwrap_or(TwoFloat::from(0.0)))),
+                    e!("try_from([f,g])", FF, false, |x: &Args| o(TwoFloat::try_from([x.f, x.g]).unwrap_or(TwoFloat::from(0.0)))),
                     e!("try_from(tuple)", A, false, |x: &Args| o(TwoFloat::try_from(x.a).unwrap_or(TwoFloat::from(0.0)))),
                     e!("try_from(array)", A, false, |x: &Args| o(TwoFloat::try_from([x.a.0, x.a.1]).unwrap_or(TwoFloat::from(0.0)))),
                     // operators
